@@ -163,11 +163,14 @@ def canon(test, truth: bool = True) -> set:
         r = _order(left, op, right, truth)
         if r is not None:
             return r
-    if isinstance(test, ast.Compare) and len(test.ops) == 2 and all(isinstance(o, (ast.Lt, ast.LtE, ast.Gt, ast.GtE)) for o in test.ops) and truth:
-        # a OP b OP c (true) == both halves true
-        first = ast.Compare(left=test.left, ops=[test.ops[0]], comparators=[test.comparators[0]])
-        second = ast.Compare(left=test.comparators[0], ops=[test.ops[1]], comparators=[test.comparators[1]])
-        return canon(first, True) | canon(second, True)
+    if isinstance(test, ast.Compare) and len(test.ops) >= 2 and truth:
+        # a OP b OP c (true) == every link true
+        out = set()
+        left = test.left
+        for op, right in zip(test.ops, test.comparators):
+            out |= canon(ast.Compare(left=left, ops=[op], comparators=[right]), True)
+            left = right
+        return out
     return {(norm(test), truth)}
 
 
